@@ -356,12 +356,22 @@ Proof.
   assert (Hc : forall l, forallb (fun c => (32 <=? c) && (c <? 127)) l = true -> Forall (fun c => 32 <= c < 127) l).
   { intros l H. rewrite forallb_forall in H. apply Forall_forall. intros c Hin. specialize (H c Hin).
     apply andb_true_iff in H. destruct H as [H1 H2]. apply Z.leb_le in H1. apply Z.ltb_lt in H2. lia. }
-  unfold json_text. repeat apply Forall_app; repeat split; try (apply Hc; reflexivity); try (apply Hd; assumption).
-  - destruct data as [h|]; [|constructor]. repeat apply Forall_app; repeat split; try (apply Hc; reflexivity).
-    eapply Forall_impl; [|apply (Hdata h eq_refl)]. intros c Hx; unfold is_hex_lower in Hx; lia.
-  - destruct ext; [apply Hc; reflexivity|constructor].
-  - destruct rlen as [l|]; [|constructor]. repeat apply Forall_app; repeat split; try (apply Hc; reflexivity).
-    apply Hd. apply Hlen. reflexivity.
+  unfold json_text.
+  apply Forall_app; split; [apply Hc; reflexivity|].
+  apply Forall_app; split; [apply Hd; exact Hid|].
+  apply Forall_app; split.
+  { destruct data as [h|]; [|constructor].
+    apply Forall_app; split; [apply Hc; reflexivity|].
+    apply Forall_app; split; [|apply Hc; reflexivity].
+    eapply Forall_impl; [|apply (Hdata h eq_refl)]. intros c Hx; unfold is_hex_lower in Hx; lia. }
+  apply Forall_app; split.
+  { destruct ext; [apply Hc; reflexivity|constructor]. }
+  apply Forall_app; split.
+  { destruct rlen as [l|]; [|constructor].
+    apply Forall_app; split; [apply Hc; reflexivity|].
+    apply Forall_app; split; [apply Hc; reflexivity|].
+    apply Hd. apply Hlen. reflexivity. }
+  apply Hc; reflexivity.
 Qed.
 
 (** ** the C16 theorem: for valid frames with zero unused bytes *)
